@@ -10,7 +10,7 @@
    function-level with the Python helpers on every run).  No proofs in this file. *)
 From Coq Require Import String Ascii List Bool Arith.
 From KV Require Import Lib.Str Lib.StrOps Lib.ODict Lib.TableDef Model.TTable Spec.RefExpand.
-From KV Require Model.Engine.
+From KV Require Model.Engine Model.EngineSM.
 Import ListNotations.
 Open Scope string_scope.
 Open Scope list_scope.
@@ -24,6 +24,8 @@ Inductive item16 :=
 | SigBlock (ib ie : string) (body : list uline)
 | TransBlock (ib ie : string) (body : list titem)             (* per state > per event > per transition, nested *)
 | InitLine (l : uline)                    (* a line outside blocks that mentions the initial state: <<<STATE_0>>> / <<<state_0>>> *)
+| UserLine (l : uline)                    (* a line outside blocks with user tags <<<name>>> / <<<name=default>>> (C17_usertag) *)
+| TableLine (pre : string) (ee : bool)    (* pre <<<TTT_BOOST_SML>>> / pre <<<TTT_BOOST_SML_ENTRY_EXIT>>> (ee): the boost::sml transition table is printed here *)
 with titem :=
 | TLine (l : uline)                                           (* a line of the per-state block *)
 | TEvent (ib ie : string) (body : list eitem)                 (* a per-event block inside it *)
@@ -40,6 +42,8 @@ Definition block_word (k : ekind) : string :=
   end.
 Definition begin_line (w : string) : string := ("<<<" ++ w ++ "_BEGIN>>>" ++ nl_str)%string.
 Definition end_line (w : string) : string := ("<<<" ++ w ++ "_END>>>" ++ nl_str)%string.
+
+Definition ttt_tag (ee : bool) : string := if ee then "<<<TTT_BOOST_SML_ENTRY_EXIT>>>" else "<<<TTT_BOOST_SML>>>".
 
 Definition render_eitem (x : eitem) : list string :=
   match x with
@@ -61,6 +65,8 @@ Definition render_item16 (it : item16) : list string :=
   | TransBlock ib ie body =>
       (ib ++ begin_line "PER_STATETRANSITION")%string :: flat_map render_titem body ++ [(ie ++ end_line "PER_STATETRANSITION")%string]
   | InitLine l => [render_line l]
+  | UserLine l => [render_line l]
+  | TableLine pre ee => [(pre ++ ttt_tag ee ++ nl_str)%string]
   end.
 Definition render16 (t : template16) : list string := flat_map render_item16 t.
 
@@ -107,7 +113,11 @@ Record elements := {
      order; a transition is the table of the name tags it defines *)
   el_tps : list (string * list (string * list (list (string * string))));
   (* the initial state: the start state of the first row *)
-  el_first : string }.
+  el_first : string;
+  (* the rows of the table as given (five columns each) *)
+  el_rows : list (list string);
+  (* the user-tag assignment of the generation (a dictionary name -> str(value)) *)
+  el_user : list (string * string) }.
 
 Fixpoint add_missing (l extra : list string) : list string :=
   match extra with
@@ -136,7 +146,8 @@ Definition tps_of (t : table) : list (string * list (string * list (list (string
 Definition elements_of (t : table) (structs protos msgs : list string) : elements :=
   {| el_states := TTable.states t; el_events := add_missing (TTable.events t) structs;
      el_actions := TTable.actions t; el_guards := TTable.guards t; el_sigs := TTable.actionsignatures t;
-     el_structs := structs; el_protos := protos; el_msgs := msgs; el_tps := tps_of t; el_first := TTable.getfirststate t |}.
+     el_structs := structs; el_protos := protos; el_msgs := msgs; el_tps := tps_of t; el_first := TTable.getfirststate t;
+     el_rows := map (fun r => [r_src r; r_ev r; r_next r; r_act r; r_guard r]) t; el_user := [] |}.
 
 Definition items_of (e : elements) (k : ekind) : list string :=
   match k with
@@ -197,8 +208,19 @@ Definition ref_item16 (e : elements) (it : item16) : list string :=
   | SigBlock _ _ body => ref_block sig_table (el_sigs e) body
   | TransBlock _ _ body => ref_trans (el_tps e) body
   | InitLine l => [render_line (map (subst16 (init_table (el_first e))) l)]
+  | UserLine l => [ref_line (el_user e) l]
+  | TableLine pre ee => EngineSM.sml_print (el_states e) (el_rows e) ee pre     (* smgen.innerexpand_sml; its text: Model/SmlRender.v, C09_engine_text *)
   end.
 
 (* the generated file: TAB normalised to four spaces *)
+(* after expand_secondfiltering, before the user-tag phase: user lines are still as they stand *)
+Definition mid_item16 (e : elements) (it : item16) : list string :=
+  match it with UserLine l => [render_line l] | _ => ref_item16 e it end.
+
+Definition with_user (a : list (string * string)) (e : elements) : elements :=
+  {| el_states := el_states e; el_events := el_events e; el_actions := el_actions e; el_guards := el_guards e; el_sigs := el_sigs e;
+     el_structs := el_structs e; el_protos := el_protos e; el_msgs := el_msgs e; el_tps := el_tps e; el_first := el_first e;
+     el_rows := el_rows e; el_user := a |}.
+
 Definition ref16 (e : elements) (t : template16) : string :=
   concat_lines (map tab4 (flat_map (ref_item16 e) t)).
